@@ -151,7 +151,11 @@ func c17Round3(c *Ctx) {
 				}
 				for si := 0; si < 2; si++ {
 					hit := false
-					for _, ft := range cf.EdgeFacts(b, si) {
+					fts := cf.EdgeFacts(b, si)
+					for _, grp := range cf.EdgeDisj(b, si) {
+						fts = append(fts, grp...) // `op == A || op == B`: the edge is taken for either
+					}
+					for _, ft := range fts {
 						if x, y, eq, ok := ft.EqFact(); ok && eq && (isConstNamed(x, name) || isConstNamed(y, name)) {
 							hit = true
 						}
